@@ -38,6 +38,11 @@ pub struct Scn {
     pub gap_ns: u64,
     /// use the repository's sequential packet loop instead of the per-packet path
     pub via_loop: bool,
+    /// the last data segment of the client / server stream carries FIN (half-close right after the message)
+    #[serde(default)]
+    pub fin_c: bool,
+    #[serde(default)]
+    pub fin_s: bool,
 }
 
 pub struct C09;
@@ -78,11 +83,13 @@ fn build_trace(s: &Scn, isn_c: u32, isn_s: u32, c_cuts: &[usize], s_cuts: &[usiz
     for &(fc, k) in order {
         if fc {
             if let Some(&(a, b)) = cs.get(k) {
-                let seg = tcp::data(&h, s.client, s.server, isn_c.wrapping_add(1).wrapping_add(a as u32), isn_s.wrapping_add(1), s.req[a..b].to_vec(), 0, 0, pkt::ACK | pkt::PSH);
+                let fl = if s.fin_c && b == s.req.len() { pkt::ACK | pkt::PSH | pkt::FIN } else { pkt::ACK | pkt::PSH };
+                let seg = tcp::data(&h, s.client, s.server, isn_c.wrapping_add(1).wrapping_add(a as u32), isn_s.wrapping_add(1), s.req[a..b].to_vec(), 0, 0, fl);
                 push(seg, (true, k, a, b), &mut trace, &mut meta);
             }
         } else if let Some(&(a, b)) = ss.get(k) {
-            let seg = tcp::data(&h, s.server, s.client, isn_s.wrapping_add(1).wrapping_add(a as u32), isn_c.wrapping_add(1).wrapping_add(s.req.len() as u32), s.resp[a..b].to_vec(), 0, 0, pkt::ACK | pkt::PSH);
+            let fl = if s.fin_s && b == s.resp.len() { pkt::ACK | pkt::PSH | pkt::FIN } else { pkt::ACK | pkt::PSH };
+            let seg = tcp::data(&h, s.server, s.client, isn_s.wrapping_add(1).wrapping_add(a as u32), isn_c.wrapping_add(1).wrapping_add(s.req.len() as u32), s.resp[a..b].to_vec(), 0, 0, fl);
             push(seg, (false, k, a, b), &mut trace, &mut meta);
         }
     }
@@ -240,6 +247,8 @@ impl Prop for C09 {
             // stay far inside the 60 s flow TTL: the statement does not quantify over time
             gap_ns: (*r.pick(&[1_000u64, 1_000_000, 20_000_000])).min(20_000_000_000 / total),
             via_loop: r.chance(1, 4),
+            fin_c: r.chance(1, 8),
+            fin_s: r.chance(1, 8),
         }
     }
 
